@@ -250,6 +250,10 @@ PROGRAMS = {
     "P7": [("include", "A")],
     "P8": [("repository", "A")],
     "P9": [("deferred", "B"), ("deferred", "D"), ("load", "A"), ("load", "D")],
+    # the caller asks for an included resource while the loader of the including one is under way
+    "P10": [("deferred", "A"), ("load", "D"), ("load", "D")],
+    "P11": [("deferred", "A"), ("load", "B"), ("load", "D"), ("load", "B")],
+    "P12": [("refresh", "A"), ("load", "D")],
 }
 
 
@@ -258,7 +262,7 @@ def run_schedule(graph, urls, program, target, cache, choices, ref):
     reset_tables()
     clear_cache()
     gone = None
-    if cache in ("warm", "stale", "stale_gone"):
+    if cache in ("warm", "stale", "stale_gone", "warm_gone"):
         for u in urls.values():
             try:
                 term.cache_load(u)
@@ -266,8 +270,8 @@ def run_schedule(graph, urls, program, target, cache, choices, ref):
                 pass
         if cache in ("stale", "stale_gone"):
             age_cache()
-        if cache == "stale_gone":
-            # the leaf can no longer be fetched; only an outdated cache file is left
+        if cache in ("stale_gone", "warm_gone"):
+            # the leaf can no longer be fetched; only an outdated (or a still fresh) cache file is left
             gone = urls["D"][len("file://"):]
             with open(gone, "rb") as fh:
                 gone_data = fh.read()
@@ -288,6 +292,8 @@ def run_schedule(graph, urls, program, target, cache, choices, ref):
             handler = ITempl()
         _ACTIVE[0] = s
 
+        seen_at_return = {}
+
         def prog():
             out = []
             api = handler if handler is not None else term.terminologies
@@ -295,7 +301,11 @@ def run_schedule(graph, urls, program, target, cache, choices, ref):
                 u = urls.get(name if name in urls else sorted(urls)[0])
                 try:
                     if op == "load":
-                        out.append((op, name, api.load(u), None))
+                        res = api.load(u)
+                        # what the caller got is judged at the moment it got it
+                        seen_at_return[id(res)] = None if res is None else \
+                            snap.normalize(snap.content(res), merged=False, ids=False)
+                        out.append((op, name, res, None))
                     elif op == "deferred":
                         api.deferred_load(u)
                         out.append((op, name, None, None))
@@ -325,6 +335,19 @@ def run_schedule(graph, urls, program, target, cache, choices, ref):
                         out.append((op, name, None, None))      # a refused include (C06's subject)
                     else:
                         out.append((op, name, None, exc))
+            # every resource the caller has loaded is loaded once more at the end: same object
+            if not any(op == "refresh" for op, _ in program) or program[-1][0] == "load":
+                for op, name in list(dict.fromkeys((o, n) for o, n in program if o == "load")):
+                    u = urls.get(name if name in urls else sorted(urls)[0])
+                    try:
+                        res = api.load(u)
+                        seen_at_return.setdefault(id(res), None if res is None else
+                                                  snap.normalize(snap.content(res), merged=False, ids=False))
+                        out.append(("load", name, res, None))
+                    except SCH.SchedAbort:
+                        raise
+                    except Exception as exc:
+                        out.append(("load", name, None, exc))
             return out
         holder = s.run(prog)
         results = holder.get("result") or []
@@ -368,6 +391,15 @@ def run_schedule(graph, urls, program, target, cache, choices, ref):
             if r is None:
                 continue
             broken_include = graph in ("missing_leaf", "unparsable_leaf") and name in ("A", "B")
+            if cache == "warm_gone":
+                # results depend on whether a refresh came first; only exceptions, identity and the
+                # cache files are judged in this state
+                if res is not None:
+                    if name in loaded and loaded[name] is not res:
+                        fails.append(failure("load.not_cached", "a later load(%s) returned another object "
+                                             "although no refresh happened (schedule %r)" % (name, choices), **loc))
+                    loaded[name] = res
+                continue
             if cache == "stale_gone":
                 # nothing that needs D can be fetched any more
                 r = ("none",)
@@ -381,7 +413,7 @@ def run_schedule(graph, urls, program, target, cache, choices, ref):
                     fails.append(failure("load.unexpected_document", "load(%s) returned a document although "
                                          "the resource cannot be fetched or parsed" % name, **loc))
                 elif r[0] == "doc":
-                    got = snap.normalize(snap.content(res), merged=False, ids=False)
+                    got = seen_at_return.get(id(res)) or snap.normalize(snap.content(res), merged=False, ids=False)
                     if got != r[1]:
                         d = snap.diff(r[1], got, limit=2)
                         fails.append(failure("load.differs", "load(%s) returned a document that differs from "
@@ -399,7 +431,7 @@ def run_schedule(graph, urls, program, target, cache, choices, ref):
             if fn and fn[0] not in cache_before:
                 fails.append(failure("load.cache_created", "a failed fetch of %s created the cache file %s"
                                      % (name, fn[0]), **loc))
-    if cache == "stale_gone":
+    if cache in ("stale_gone", "warm_gone"):
         for n, h in cache_before.items():
             if n.endswith("D.xml") and after.get(n) != h:
                 fails.append(failure("load.cache_touched_by_failed_fetch", "the failed fetch of the leaf changed "
@@ -422,19 +454,23 @@ def combos(tier):
             names = {n for _, n in prog}
             if graph == "single":
                 prog = [(op, "D") for op, _ in prog]
-                if pname in ("P3", "P4", "P9"):
+                if pname in ("P3", "P4", "P9", "P10", "P11"):
                     continue
             elif "C" in names and graph != "diamond":
                 continue
             for target in ("terminology", "templates"):
-                if target == "templates" and pname in ("P6", "P7", "P8"):
+                if target == "templates" and pname in ("P6", "P7", "P8", "P12"):
                     continue
-                for cache in ("empty", "warm", "stale", "stale_gone"):
-                    if cache != "empty" and pname not in ("P1", "P2", "P4", "P5"):
+                for cache in ("empty", "warm", "stale", "stale_gone", "warm_gone"):
+                    if cache != "empty" and pname not in ("P1", "P2", "P4", "P5", "P6", "P12"):
+                        continue
+                    if cache == "empty" and pname == "P12":
+                        continue
+                    if cache == "warm_gone" and pname not in ("P6", "P12", "P2"):
                         continue
                     if cache != "empty" and graph not in ("single", "chain") and tier == "quick":
                         continue
-                    if cache == "stale_gone" and graph not in ("single", "chain"):
+                    if cache in ("stale_gone", "warm_gone") and graph not in ("single", "chain"):
                         continue
                     out.append((graph, pname, prog, target, cache))
     return out
